@@ -29,12 +29,13 @@ ASSUMPTIONS = ['the Beancount loader (3.2.3) and its booking are trusted: the or
 TYPED = {'transactions': data.Transaction, 'prices': data.Price, 'balances': data.Balance, 'notes': data.Note,
          'events': data.Event, 'documents': data.Document}
 RENAMES = {'balances': {'discrepancy': 'diff_amount'}, 'commodities': {'name': 'currency'}}
+_OTHER = []
 META_PROBES = ['ref', 'note', 'when', 'amt', 'flagged', 'k1', 'filename', 'lineno', 'missing', 'name']
 
 
 @st.composite
 def ledger_case(draw):
-    desc = draw(ledgergen.ledgers())
+    desc = draw(ledgergen.ledgers(empty_narrations=True))
     text = ledgergen.render(desc)
     strip = draw(st.sets(st.integers(0, 40), max_size=4)) if draw(st.integers(0, 2)) == 0 else set()
     return {'text': text, 'strip_meta': sorted(strip)}
@@ -137,7 +138,14 @@ def prop_ledger(sh, case):
         sh.count('discarded_ledger_with_load_errors')
         sh.record(None, False)
         return []
+    # a connection over another ledger lives in the same process: neither may see the other's accounts or commodities
+    if not _OTHER:
+        _OTHER.append(ledgers.connect(ledgers.SAMPLE))
+        _OTHER.append(harness.engine(_OTHER[0], harness.parsed('SELECT account, open.date, close.date FROM #accounts'))[2])
     conn = ledgers.connect_entries(entries, options)
+    again = harness.engine(_OTHER[0], harness.parsed('SELECT account, open.date, close.date FROM #accounts'))
+    if again[0] != 'ok' or again[2] != _OTHER[1]:
+        fails.append(('accounts-of-another-connection-changed', f'{again[2]!r} was {_OTHER[1]!r}'))
     # postings
     expected = []
     bal = inventory.Inventory()
